@@ -196,28 +196,47 @@ def _call_walk(a):
     return (r, md)
 
 
-def _closure_term(f, enc):
-    """a function `jsx_tag_create` returned, as the closure value of the translation: the captured variables in the order of
-    their first occurrence in the body of the nested function (`name`, `allowedProps`), then `__name__`"""
+def _capture_order(code, src_owner) -> list:
+    """the free variables of the nested function `code`, in the order of their first occurrence in its body (the order in
+    which the translation takes the captured values; a renaming changes nothing)"""
+    import ast
+    import inspect
+    import textwrap
+    free = list(code.co_freevars)
+    try:
+        tree = ast.parse(textwrap.dedent(inspect.getsource(src_owner)))
+        inner = next(n for n in ast.walk(tree) if isinstance(n, ast.FunctionDef) and n.name == code.co_name)
+        seen = []
+        for n in sorted((n for n in ast.walk(inner) if isinstance(n, ast.Name)), key=lambda n: (n.lineno, n.col_offset)):
+            if n.id in free and n.id not in seen:
+                seen.append(n.id)
+        return seen + [v for v in free if v not in seen]
+    except Exception:  # noqa: BLE001
+        return free
+
+
+def _create_code():
     import types
-    if not (isinstance(f, types.FunctionType) and f.__closure__ and f.__code__.co_freevars):
+    m = _jsxmod()
+    codes = [c for c in m.jsx_tag_create.__code__.co_consts if isinstance(c, types.CodeType)]
+    if len(codes) != 1:
+        raise LookupError("closure of jsx_tag_create")
+    return codes[0]
+
+
+def _closure_term(f, enc):
+    """a function `jsx_tag_create` returned, as the closure value of the translation: the captured values in the order of
+    their first occurrence in the body of the nested function, then `__name__`"""
+    import types
+    if not (isinstance(f, types.FunctionType) and f.__closure__ and f.__module__ == _jsxmod().__name__):
+        return None
+    try:
+        if f.__code__ is not _create_code():
+            return None
+    except LookupError:
         return None
     cells = dict(zip(f.__code__.co_freevars, (c.cell_contents for c in f.__closure__)))
-    if set(cells) != {"name", "allowedProps"}:
-        return None
-    import ast, inspect
-    order = [n for n in f.__code__.co_names + f.__code__.co_freevars if n in cells]
-    # first occurrence in the body, in source order
-    try:
-        src = inspect.getsource(f)
-        tree = ast.parse("if 1:\n" + src if src.startswith((" ", "\t")) else src)
-        seen = []
-        for n in sorted((n for n in ast.walk(tree) if isinstance(n, ast.Name)), key=lambda n: (n.lineno, n.col_offset)):
-            if n.id in cells and n.id not in seen:
-                seen.append(n.id)
-        order = seen
-    except Exception:  # noqa: BLE001
-        pass
+    order = _capture_order(f.__code__, _jsxmod().jsx_tag_create)
     return ("O closure [ fn S " + es("jsx_tag_create.<inner>") + " captured L [ " + "".join(enc(cells[k]) + " " for k in order)
             + "] __name__ " + enc(f.__name__) + " ]")
 
@@ -231,16 +250,17 @@ def _jsx_new(a):
 
 
 def _create_tag(a):
-    """the function defined inside `jsx_tag_create`, closed over `name = a[0]`, `allowedProps = a[1]` (rebuilt from its code
-    object: `jsx_tag_create` itself is not run), called with `*a[2], **a[3]`"""
+    """the function defined inside `jsx_tag_create`, closed over the first values of `a` (rebuilt from its code object:
+    `jsx_tag_create` itself is not run), called with `*a[-2], **a[-1]`"""
     import types
     m = _jsxmod()
-    codes = [c for c in m.jsx_tag_create.__code__.co_consts if isinstance(c, types.CodeType)]
-    if len(codes) != 1 or set(codes[0].co_freevars) != {"name", "allowedProps"}:
-        raise LookupError("closure of jsx_tag_create")
-    vals = {"name": a[0], "allowedProps": a[1]}
-    f = types.FunctionType(codes[0], vars(m), codes[0].co_name, None, tuple(types.CellType(vals[v]) for v in codes[0].co_freevars))
-    return f(*a[2], **a[3])
+    code = _create_code()
+    order = _capture_order(code, m.jsx_tag_create)
+    if len(a) != len(order) + 2:
+        raise LookupError("closure of jsx_tag_create: number of captured variables")
+    vals = dict(zip(order, a))
+    f = types.FunctionType(code, vars(m), code.co_name, None, tuple(types.CellType(vals[v]) for v in code.co_freevars))
+    return f(*a[-2], **a[-1])
 
 
 ops_src.CALLS["jsx_newC20b"] = _jsx_new
